@@ -48,6 +48,12 @@ func genStress(r *eng.Rng, th bool, race bool) StressParams {
 	if p.Children > 0 && r.Chance(1, 2) {
 		p.ChildOnly = true
 	}
+	if r.Chance(1, 3) {
+		// Merge operands folded by readers, the merger and the compactor
+		// while everything runs
+		p.Merge = true
+		p.Cfg.MergeOp = true
+	}
 	if race {
 		p.Batches = 30 + r.Intn(60)
 		p.Extras = true
@@ -76,6 +82,9 @@ func stressUnits(p StressParams, res *StressResult, add func(string)) {
 	}
 	if p.ChildOnly {
 		add(b + "|child-only-batches")
+	}
+	if p.Merge {
+		add(b + "|merge-operands")
 	}
 	if p.Cfg.DeferredSort {
 		add(b + "|defsort")
